@@ -313,7 +313,7 @@ func genBig(r *hx.Rand) *big.Int {
 
 func gen(g *hx.Gen) {
 	r := g.R
-	n := g.N(40000, 2000000)
+	n := g.N(40000, 1000000)
 	// every exponent with the boundary mantissas, both sign bits
 	for e := uint32(0); e < 256; e++ {
 		for _, m := range []uint32{0, 1, 0xff, 0x100, 0x7fff, 0x8000, 0x8001, 0xffff, 0x10000, 0x120000, 0x7fffff} {
